@@ -902,8 +902,33 @@ fn project_bind_groups(
                                             }
                                         }
                                     }
-                                    let entries: Vec<Value> = bg["entries"]
-                                        .as_array()
+                                    // every `BindGroupEntry { .. }` literal of the function, wherever it is written (inline in the descriptor,
+                                    // in a local array bound by `let`, in a helper expression): in source order
+                                    fn entry_lits(v: &Value, acc: &mut Vec<Value>) {
+                                        match v {
+                                            Value::Object(m) => {
+                                                if m.get("$struct").and_then(|p| p.as_str()).map(last_seg) == Some("BindGroupEntry") {
+                                                    acc.push(v.clone());
+                                                    return;
+                                                }
+                                                for (_, x) in m {
+                                                    entry_lits(x, acc);
+                                                }
+                                            }
+                                            Value::Array(a) => {
+                                                for x in a {
+                                                    entry_lits(x, acc);
+                                                }
+                                            }
+                                            _ => {}
+                                        }
+                                    }
+                                    let mut lits = vec![];
+                                    for s in &body {
+                                        entry_lits(s, &mut lits);
+                                    }
+                                    let found_entries = !lits.is_empty() || bg["entries"].as_array().map(|a| a.is_empty()).unwrap_or(false);
+                                    let entries: Vec<Value> = Some(&lits)
                                         .map(|a| {
                                             a.iter()
                                                 .map(|x| {
@@ -918,11 +943,15 @@ fn project_bind_groups(
                                                 .collect()
                                         })
                                         .unwrap_or_default();
-                                    e.insert("from_bindings".into(), json!({
+                                    let mut fb = json!({
                                         "params": fn_params(&f.sig),
                                         "layout_desc": layout_desc, "layout_var": layout_var,
                                         "bg_layout": vpath(&bg["layout"]),
-                                        "entries": entries, "label": bg["label"]}));
+                                        "label": bg["label"]});
+                                    if found_entries {
+                                        fb["entries"] = json!(entries);
+                                    }
+                                    e.insert("from_bindings".into(), fb);
                                 }
                                 "set" => {
                                     let call = body.last().cloned().unwrap_or(Value::Null);
